@@ -298,6 +298,10 @@ func (it *interp) runIteration(st *mstate, order []*ssa.Phi) ([]outcome, bool) {
 							count++
 						}
 					}
+				} else if it.c.assemblesKeyOnce(x.Call.StaticCallee(), it.repKey) {
+					if count < 2 {
+						count++
+					}
 				}
 			case *ssa.Return:
 				last := x.Results[len(x.Results)-1]
@@ -358,6 +362,11 @@ func (c *Ctx) checkMultiplicity(d *decoder, rep *decCase, ref map[int64]refField
 			if k, ok := call.Call.Args[1].(*ssa.Const); ok && k.Value != nil && k.Value.Kind() == constant.String && constant.StringVal(k.Value) == it.repKey {
 				nsites++
 			}
+		}
+	}
+	for _, ci := range core.CallsIn(d.fn) {
+		if call, ok := ci.(*ssa.Call); ok && c.assemblesKeyOnce(call.Call.StaticCallee(), it.repKey) {
+			nsites++
 		}
 	}
 	c.R.Analysed["R9.4_assembly_sites"] = nsites
@@ -1446,4 +1455,74 @@ func (c *Ctx) checkPackedCount() {
 		}
 	}
 	r.Floor("R9.9", n, 1)
+}
+
+// assemblesKeyOnce: repository helper h of package data assembles the map entry `key` exactly once on every path to a
+// return that may carry a nil error (one qp.MapEntry site with that constant key, dominating all such returns, outside
+// any loop).
+func (c *Ctx) assemblesKeyOnce(h *ssa.Function, key string) bool {
+	if h == nil || len(h.Blocks) == 0 {
+		return false
+	}
+	if rel, ok := c.P.PkgOf(h); !ok || rel != "data" || !c.P.HandWritten(h) {
+		return false
+	}
+	errIdx := core.ErrResultIndex(h.Signature)
+	var site *ssa.Call
+	for _, ci := range core.CallsIn(h) {
+		call, ok := ci.(*ssa.Call)
+		if !ok || !core.IsCallTo(call, qpPath, "MapEntry") {
+			continue
+		}
+		k, ok := call.Call.Args[1].(*ssa.Const)
+		if !ok || k.Value == nil || k.Value.Kind() != constant.String || constant.StringVal(k.Value) != key {
+			continue
+		}
+		if site != nil {
+			return false
+		}
+		site = call
+	}
+	if site == nil || core.InCycle(site.Block()) {
+		return false
+	}
+	n := 0
+	for _, ret := range core.Returns(h) {
+		if errIdx >= 0 {
+			ev := core.ResolvedResults(ret)[errIdx]
+			if core.ErrKnownNonNil(ev, nil) || core.GuardedBy(ret.Block(), func(cond ssa.Value) (bool, bool) {
+				x, trueMeansNil, ok := core.NilCmp(cond)
+				if !ok || x != ev {
+					return false, false
+				}
+				return !trueMeansNil, true
+			}) {
+				continue
+			}
+			// protowire.ParseError(n) under n < 0 is a non-nil error
+			if pe, ok := ev.(*ssa.Call); ok && isPW(pe, "ParseError") && len(pe.Call.Args) == 1 {
+				nv := pe.Call.Args[0]
+				if core.GuardedBy(ret.Block(), func(cond ssa.Value) (bool, bool) {
+					v, onT, onF, ok := core.SignTest(cond)
+					if !ok || v != nv {
+						return false, false
+					}
+					if onT == "neg" {
+						return true, true
+					}
+					if onF == "neg" {
+						return false, true
+					}
+					return false, false
+				}) {
+					continue
+				}
+			}
+		}
+		n++
+		if !(site.Block() == ret.Block() || site.Block().Dominates(ret.Block())) {
+			return false
+		}
+	}
+	return n > 0
 }
